@@ -184,14 +184,18 @@ REGISTRY = {
     },
     'C19': {
         'modules': ['contracts.node'], 'level': 'proof',
-        'level_text': 'PARTIAL: add_buffer/__process_packet absorb every byte string; firewalls: a refused event is never transmitted '
+        'level_text': 'PARTIAL: add_buffer/__process_packet absorb every byte string; every delimiter-terminated piece of stash + data is '
+                      'processed exactly once in order and an unterminated tail that is not (yet) a JSON document is kept whole for the '
+                      'next read (the loaders\' JSON error is reported, not swallowed); firewalls: a refused event is never transmitted '
                       '(send) nor dispatched (__process_packet_call), on every path; load_event/load_value are verified for EVERY value '
                       'json.loads can return (dynamic JSON value model): only the declared exceptions escape, and no peer-chosen metadata '
                       'key that the dispatching core reads (set recomputed from the ASTs on every run) is ever set on an event or value. '
-                      'Bounded stand-ins (labelled): JSON round trip, hostile packet grammar against a live loop.',
+                      'Bounded stand-ins (labelled): segmentation of real packet streams, JSON round trip, hostile packet grammar '
+                      'against a live loop.',
         'level_note': 'not decided: "executed exactly once on the peer and the result comes back" (two-party protocol over two loops); '
-                      'JSON itself trusted; load_event/firewall/dump_event by their contracts.',
-        'explanation': 'node protocol contracts discharged by z3 + AST obligations; serialisation and hostile grammar bounded',
+                      'trusted: JSON itself (json.loads raises only JSONDecodeError/RecursionError; objects are self-delimiting, so a tail '
+                      'accepted as a packet is a complete one); load_event/firewall/dump_event by their contracts.',
+        'explanation': 'node protocol contracts discharged by z3 + AST obligations; segmentation, serialisation and hostile grammar bounded',
         'not_decided': ['remote execution exactly once with result return (two-party protocol)', 'JSON round trip beyond the bounded grammar'],
     },
     'C15': {
